@@ -198,8 +198,8 @@ def install():
     raw_init = MG.__init__
 
     @functools.wraps(raw_init)
-    def init(self, tok):
-        raw_init(self, tok)
+    def init(self, tok, *args, **kwargs):  # signature-transparent: optional parameters added by a refactoring pass through
+        raw_init(self, tok, *args, **kwargs)
         trace.count("contract.molgen.init")
         shared = [bd for bd in self.bond_descriptors if any(bd is t for t in tok.bond_descriptors)]
         if shared:
@@ -216,9 +216,9 @@ def install():
     raw_ccw = core.choose_compatible_weight
 
     @functools.wraps(raw_ccw)
-    def ccw(bond_descriptors, bond, rng):
+    def ccw(bond_descriptors, bond, rng, *args, **kwargs):
         n0 = len(trace.events)
-        idx = raw_ccw(bond_descriptors, bond, rng)
+        idx = raw_ccw(bond_descriptors, bond, rng, *args, **kwargs)
         trace.count("contract.choose_compatible_weight")
         chosen = bond_descriptors[int(idx)]
         if bond is not None and not rc.compat(rc.lib_triple(bond), rc.lib_triple(chosen)):
@@ -245,10 +245,10 @@ def install():
             return
 
         @functools.wraps(raw_draw)
-        def draw_mw(self, rng=None):
+        def draw_mw(self, *args, **kwargs):
             trace.count("contract.draw_mw")
             try:
-                v = raw_draw(self, rng)
+                v = raw_draw(self, *args, **kwargs)
             except BaseException as exc:
                 trace.emit("draw_exc", dist=self.generate_string(True), exc=f"{type(exc).__name__}: {exc}"[:200])
                 raise
@@ -267,10 +267,11 @@ def install():
             return
 
         @functools.wraps(raw_gen)
-        def generate(self, prefix=None, rng=core._GLOBAL_RNG):
+        def generate(self, *args, **kwargs):
+            prefix = kwargs.get("prefix", args[0] if args else None)
             trace.emit("enter", kind=kind, obj=id(self), text=(self.generate_string(True) if kind != "molecule" else None), prefix_open=None if prefix is None else open_list(prefix), prefix_mass=None if prefix is None else prefix.weight)
             try:
-                out = raw_gen(self, prefix, rng)
+                out = raw_gen(self, *args, **kwargs)
             except BaseException as exc:
                 trace.emit("exit", kind=kind, obj=id(self), exc=f"{type(exc).__name__}: {exc}"[:300])
                 raise
